@@ -37,7 +37,13 @@ func DateRanges(src search.DateValuesSource) *DateRangeAggregation {
 }
 
 func (a *DateRangeAggregation) Fields() []string {
-	return a.src.Fields()
+	rv := a.src.Fields()
+	// the nested aggregations are fed from the same hits, so the
+	// fields they read have to be loaded as well
+	for _, agg := range a.aggregations {
+		rv = append(rv, agg.Fields()...)
+	}
+	return rv
 }
 
 func (a *DateRangeAggregation) AddRange(rang *DateRange) *DateRangeAggregation {
